@@ -521,7 +521,9 @@ def get(name, tier, seed):
         WC = {"envs": ["A", "B"], "custom": {}, "handles": {"h1": ["A", "B"]}, "init": {"A.f": 1, "B.p": "R"},
               "contraction": True, "D": 3, "tags": {"chain": True},
               "prefix": [["ce_combine", "h1", ["A.p", "B.p"]]]}
-        return {**base, "prop": "C13", "worlds": [("WM", WM), ("WX", WX), ("WC/chain", WC)] + [(n, w_, 1 if q else 2) for n, w_ in SEEDS_W3[:(1 if q else 2)]]
+        WH = {"envs": ["A", "B", "C"], "custom": {"Q": 3}, "handles": {"h1": ["A"], "h2": ["h1", "B"]},
+              "init": {"A.f": 1, "B.p": "R"}, "contraction": True, "D": 3, "tags": {"chain": True}}
+        return {**base, "prop": "C13", "worlds": [("WM", WM), ("WX", WX), ("WC/chain", WC), ("WH/merged-handle", WH, 2 if q else 3)] + [(n, w_, 1 if q else 2) for n, w_ in SEEDS_W3[:(1 if q else 2)]]
                 + rich_seeds(0 if q else 2), "core": core13b, "probes": probes13,
                 "depth": 3 if q else 4, "extra_judges": []}
     if name == "C11":
